@@ -14,7 +14,13 @@ func Bubble(t *testing.T) func(fn func()) {
 	return func(fn func()) {
 		var p any
 		synctest.Test(t, func(*testing.T) {
-			defer func() { p = recover() }()
+			defer func() {
+				p = recover()
+				// Fake time stops when this goroutine exits: let goroutines
+				// the code under test left sleeping (a retry back-off in a
+				// thread of a cut execution, say) run out first.
+				DrainTimers()
+			}()
 			fn()
 		})
 		if p != nil {
